@@ -78,6 +78,16 @@ def show(v):
     return repr(v)
 
 
+def class_level_functions(repo):
+    """{'Class.name': FunctionDef} of every static method and class method: `Class.name(...)` is interpreted (factories, helpers)"""
+    out = {}
+    for cn, c in repo.classes.items():
+        for mn, m in c.methods.items():
+            if m.is_static or m.is_classmethod:
+                out["%s.%s" % (cn, mn)] = m.node
+    return out
+
+
 def run_concrete(stmts, env, events, notes, depth=0, workers=(), resolver=None, hooks=None, functions=None):
     """events: ('new', cls, [args], obj) / ('call', receiver text, method, [arg texts], [arg values], {keyword values}, receiver value).
     Returns 'raise:<name>', 'return', 'exit', 'break', 'continue' or None; the value of a return statement is left in env['$return'].
@@ -93,11 +103,13 @@ def run_concrete(stmts, env, events, notes, depth=0, workers=(), resolver=None, 
     def plain_env():
         return {k: v for k, v in env.items() if not isinstance(v, (Obj, Desc))}
 
-    def call_method(fdef, args, kwargs):
+    def call_method(fdef, args, kwargs, cls=None):
         if depth > 4:
             raise NotConst("call depth")
         params = [a.arg for a in fdef.args.args if a.arg not in ("self", "cls")]
         sub = {k: v for k, v in env.items() if not isinstance(k, str) or "." in k or k[:1].isupper() or isinstance(v, ClsRef) or k.isupper()}
+        if cls is not None:
+            sub["cls"] = cls
         defaults = fdef.args.defaults
         for p_, d_ in zip(params[len(params) - len(defaults):], defaults):
             try:
@@ -166,6 +178,9 @@ def run_concrete(stmts, env, events, notes, depth=0, workers=(), resolver=None, 
                         except Exception as ex:
                             raise NotConst(str(ex))
                 recv = repr(r) if isinstance(r, (Obj, Desc)) else U(f.value)
+                if isinstance(r, ClsRef) and functions and "%s.%s" % (r.name, f.attr) in functions and f.attr not in workers:
+                    avals, kvals = values(e)
+                    return call_method(functions["%s.%s" % (r.name, f.attr)], avals, kvals, cls=r)
                 if recv in ("self", "cls") and resolver is not None and f.attr not in workers:
                     fdef = resolver(f.attr)
                     if fdef is not None:
